@@ -20,6 +20,8 @@ func runC13(p *Prog, r *Report) {
 	attached := p.ConstVal("", "PipeEventAttached")
 	detached := p.ConstVal("", "PipeEventDetached")
 
+	queuePops(p, r, "C13.13/queue-pops", func(rel string) bool { return strings.HasPrefix(rel, "transport") || rel == "internal/core" })
+	r.Floor("C13.13/queue-pops", "queue_pop_sites", 4)
 	// ---- C13.1 addPipe ordering
 	R := "C13.1/addPipe"
 	r.Describe(R, "addPipe: Attaching hook before proto.AddPipe; added=true only under p.lock on the AddPipe==nil and !closing edges; Attached hook after added=true")
@@ -49,6 +51,13 @@ func runC13(p *Prog, r *Report) {
 			}
 			q.Req(R, "added-on-AddPipe-nil-edge", okNil, p.InstrPos(e.In), "added=true only on the AddPipe()==nil edge", "p.added = true is not guarded by proto.AddPipe() == nil: guards "+strings.Join(e.Guard, "; "))
 			q.Req(R, "added-on-not-closing-edge", okClosing, p.InstrPos(e.In), "added=true only when !closing", "p.added = true is not guarded by !p.closing: guards "+strings.Join(e.Guard, "; "))
+			okC := false
+			for _, g := range padd[0].Guard {
+				if strings.HasPrefix(g, "!") && strings.HasSuffix(g, ".closing") {
+					okC = true
+				}
+			}
+			q.Req(R, "AddPipe-on-not-closing-edge", okC, padd.Pos(p), "the protocol is given the pipe only when it was not closed during Attaching", "proto.AddPipe is not guarded by !p.closing: a pipe closed from the Attaching hook is still handed to the protocol, and since Close already ran with added=false no RemovePipe ever follows: the protocol keeps a dead pipe: guards "+strings.Join(padd[0].Guard, "; "))
 			q.Req(R, "added-under-pipe-lock", Sel{e}.AllHeld(corePipeMu), p.InstrPos(e.In), "under p.lock", "p.added = true is not under p.lock")
 			q.Req(R, "AddPipe-under-pipe-lock", padd.AllHeld(corePipeMu), padd.Pos(p), "proto.AddPipe under p.lock", "proto.AddPipe is not called under p.lock (Close could interleave)")
 			q.Req(R, "attached-after-added", len(hookB) == 1 && hookB.DominatedBy(stAdded), hookB.Pos(p), "Attached hook dominated by added=true", "the Attached hook is not dominated by p.added = true")
